@@ -68,6 +68,8 @@ class State:
         s.held = getattr(self, 'held', ())
         s.actions = getattr(self, 'actions', [])
         s.pending_action = getattr(self, 'pending_action', None)
+        s.lk_old = getattr(self, 'lk_old', None)
+        s.lk_post = getattr(self, 'lk_post', None)
         return s
 
 
@@ -480,7 +482,11 @@ class Exec:
         if z3.is_true(goal):
             # trivially true after construction; still counted (cheap) so that obligation sets are stable
             pass
-        tags = [t for t in tags if t not in ('seq', 'intf')]
+        tags = [t for t in tags if t not in ('seq', 'intf', 'tintf')]
+        if self.mode == 'tintf':
+            # obligations of the table-interference pass are families of their own
+            i_ = name.rfind('/')
+            name = name[:i_ + 1] + 'tintf.' + name[i_ + 1:]
         if self.mode == 'intf' and 'C02' not in tags and any(t in ('C01', 'C05') for t in tags):
             tags = tags + ['C02']
         asm = list(st.pc)
@@ -509,12 +515,15 @@ class Exec:
         cache = getattr(self, '_arruse', None)
         if cache is None:
             cache = self._arruse = {}
+            self._arruse_keep = {}
+        keep = self._arruse_keep
 
         def uses(t):
             i = t.get_id()
             if i in cache:
                 return cache[i]
             cache[i] = frozenset()      # cycle guard
+            keep[i] = t                 # z3 recycles the ids of dead terms: a cached id must stay that of a live term
             if z3.is_const(t) and t.decl().kind() == z3.Z3_OP_UNINTERPRETED:
                 n = t.decl().name()
                 r = frozenset([n]) if n.startswith('arr!') else frozenset()
@@ -905,7 +914,7 @@ class Exec:
         env = self.local_env(fr, st)
         lid = self.loop_id(fr.f, head)
         for c in invs:
-            g = self.spec.eval_bool(self, c.expr, env, st, getattr(self, 'fn_old', None) or st)
+            g = self.spec.eval_bool(self, c.expr, env, st, self.old_for(st))
             self.oblige(st, '%s/%s/loop.%s.%s.%s' % (self.tagstr(c), self.prog.short(fr.f['name']), lid,
                                                       c.label or 'inv%d' % c.ordinal, phase), g, tags=c.tags,
                         where='%s:%d' % (c.file, c.line), kind='invariant')
@@ -930,7 +939,7 @@ class Exec:
             if c.extra['loop'] != lid or c.extra['what'] != 'iteration' or not self.active(c):
                 continue
             e = self.spec_parse(c.extra['arg'])
-            g = self.spec.eval_bool(self, e[2], env, st, getattr(self, 'fn_old', st))
+            g = self.spec.eval_bool(self, e[2], env, st, self.old_for(st))
             self.oblige(st, '%s/%s/loop.%s.iteration.%s' % ('+'.join(e[0]) or 'AUX', self.prog.short(fr.f['name']), lid, e[1] or 'it'), g,
                         tags=e[0], where='%s:%d' % (c.file, c.line), kind='invariant')
 
@@ -950,7 +959,7 @@ class Exec:
     def assume_invariants(self, fr, head, invs, decs, st):
         env = self.local_env(fr, st)
         for c in invs:
-            g = self.spec.eval_bool(self, c.expr, env, st, getattr(self, 'fn_old', None) or st)
+            g = self.spec.eval_bool(self, c.expr, env, st, self.old_for(st))
             st.pc.append(g)
         if not hasattr(fr, 'variant'):
             fr.variant = {}
@@ -961,7 +970,7 @@ class Exec:
             self.covers.append(('cover/%s/loop.%s.body' % (self.prog.short(fr.f['name']), self.loop_id(fr.f, head)), list(st.pc)))
 
     def tagstr(self, c):
-        t = [x for x in c.tags if x not in ('seq', 'intf')]
+        t = [x for x in c.tags if x not in ('seq', 'intf', 'tintf')]
         return '+'.join(t) if t else 'AUX'
 
     def active(self, c):
@@ -970,7 +979,14 @@ class Exec:
             return False
         if 'intf' in c.tags and self.mode != 'intf':
             return False
+        if 'tintf' in c.tags and self.mode != 'tintf':
+            return False
         return True
+
+    def old_for(self, st):
+        """State that old(.) denotes in invariants: the function entry, or -- in table-interference mode, inside a locked
+        region -- the state right after the lock was acquired (and the environment had its turn)."""
+        return getattr(st, 'lk_old', None) or getattr(self, 'fn_old', None) or st
 
     def local_env(self, fr, st):
         env = {}
@@ -1025,6 +1041,7 @@ class Exec:
                     if ins.get('name'):
                         fr2.regs[ins['name']] = res
                     self.run_instrs(fr2, bi, ii + 1, pred, st2, k)
+                self.cur_fr = fr
                 self.do_call(fr, ins, ins['call'], st, cont)
                 return
             if op == 'If':
@@ -1164,6 +1181,8 @@ class Exec:
         held.append((self.lock_id(p), kind))
         st.held = tuple(held)
         st.trace.append(('acquire', p, self.line(ins)))
+        if self.mode == 'tintf' and self.spec is not None and not getattr(self, 'pure_depth', 0):
+            self.spec.lock_env_step(self, st, p)
 
     def release(self, st, p, ins, kind='lock'):
         held = list(getattr(st, 'held', ()))
@@ -1175,6 +1194,10 @@ class Exec:
             del held[idx[-1]]
         st.held = tuple(held)
         st.trace.append(('release', p, self.line(ins)))
+        if self.mode == 'tintf' and not getattr(self, 'dry', 0) and not getattr(self, 'pure_depth', 0):
+            # end of the locked region = the linearization point of a writer: the contract is evaluated on this state
+            st.lk_post = None
+            st.lk_post = st.copy()
 
     def on_cond_wait(self, st, p, ins):
         # monitor discipline (C13): Wait is called with a mutex held; while waiting, other goroutines run: every shared
@@ -1313,6 +1336,9 @@ class Exec:
                 pass
         elif rs[0] == 'addr' and rd[0] == 'bv':
             f = z3.Function('ptr2uint', Addr, BV64)
+            finv = z3.Function('uint2ptr', BV64, Addr)
+            # the numeric value of a pointer identifies the address (conversions of live pointers are injective)
+            st.pc.append(finv(f(self.term(x))) == self.term(x))
             self.setreg(fr, ins, V(t, f(self.term(x))))
         elif rs[0] == 'bv' and rd[0] == 'f64':
             f = z3.Function('f64_of_%s%d' % ('s' if rs[2] else 'u', rs[1]), z3.BitVecSort(rs[1]), F64)
